@@ -267,8 +267,9 @@ Fixpoint mseq (L : list blocktype) (is : list instr) : option (N * list ainstr) 
     returns the amount of the entry tick's [invoke_after] part and the annotated body *)
 Definition ameter_body (nl : N) (result : blocktype) (body : list instr) : option (list ainstr) :=
   obind (mseq [result] body) (fun '(h, body') =>
-  let e := c_invoke_after cfg nl + h in
-  if seg_ok e then Some (tick_opt e ++ body') else None).
+  let ia := c_invoke_after cfg nl in
+  let e := ia + h in
+  if seg_ok e then Some ((if 0 <? e then [ABasic (OSrc ia 0) (BTick e)] else []) ++ body') else None).
 
 Definition meter_body (nl : N) (result : blocktype) (body : list instr) : option (list instr) :=
   match ameter_body nl result body with Some b => Some (erase_seq b) | None => None end.
